@@ -52,3 +52,6 @@ PROPS = {
         "assumptions": COMMON_ASSUME,
     },
 }
+
+HOOK_COMMITS = ["6bd6519"]
+NOT_APPLICABLE = {}
